@@ -1,6 +1,7 @@
 package mon
 
 import (
+	"os"
 	"fmt"
 	"math/big"
 	"strings"
@@ -145,6 +146,20 @@ func (m *C01) OnStep(w *ops.World, st *ops.Step) {
 				continue
 			}
 			if !d.IsZero() {
+				if os.Getenv("VERIF_C01_DEBUG") != "" && st.Staker != nil && st.Pre != nil {
+					fmt.Printf("C01-DEBUG pre row %+v\n", st.Pre.Ledger.Staker[st.Staker.ID+"/"+a])
+					for k, u := range st.Pre.Ledger.Undel {
+						if u.StakerID == st.Staker.ID && u.AssetID == a {
+							fmt.Printf("C01-DEBUG pre undel %s amount=%s actual=%s\n", k, u.Amount, u.ActualCompletedAmount)
+						}
+					}
+					fmt.Printf("C01-DEBUG post row %+v err=%s\n", st.Post.Ledger.Staker[st.Staker.ID+"/"+a], st.Err)
+					for k, u := range st.Post.Ledger.Undel {
+						if u.StakerID == st.Staker.ID && u.AssetID == a {
+							fmt.Printf("C01-DEBUG post undel %s amount=%s actual=%s\n", k, u.Amount, u.ActualCompletedAmount)
+						}
+					}
+				}
 				bad("failed operation changed the ledger sum")
 			}
 			continue
